@@ -37,10 +37,10 @@ def run_surfaces(probes):
     lines = [json.loads(l) for l in p.stdout.splitlines() if l.strip()]
     return p.returncode, lines, p.stderr[-500:]
 
-def coq_calls(calls, oracles):
+def coq_calls(calls, oracles, variant=0):
     gs = []
     for op, ts, cs in calls:
-        term, _ = coq_op(op, oracles.get(op, []))
+        term, _ = coq_op(op, oracles.get(wiring.oracle_key(op, variant), oracles.get(op, [])))
         gs.append("(%s, %s, %s)" % (term, cqNs(ts), cqNs(cs)))
     return "[%s]" % ";".join(gs)
 
@@ -110,7 +110,8 @@ def run(ctx):
             o = oper[i - len(plan)]
             calls = [(o["op"], o["ts"], o["cs"])]
             meta.append(("operate", o, calls, r))
-        terms.append("check_surface_case %s %s %s %s" % (coq_calls(calls, oracles), cqN(wiring.NPROBE), cqvec(probes[r["p"]]), coq_res(r)))
+        variant = meta[-1][1].get("_variant", 0) if meta[-1][0] == "surface" else 0
+        terms.append("check_surface_case %s %s %s %s" % (coq_calls(calls, oracles, variant), cqN(wiring.NPROBE), cqvec(probes[r["p"]]), coq_res(r)))
     outs = coq_eval(ctx, IMPORTS, terms)
     known = {k["class"]: k for k in load_known() if k["property"] == "C07"}
     seen_known = 0
@@ -182,7 +183,7 @@ def replay(ctx, path):
             o = oper[i - len(plan)]
             if rp["surface"] != "operate" or (o["op"], o["ts"], o["cs"], o["chain"]) != (rp["operator"], rp["targets"], rp["controls"], rp["chain"]): continue
             calls = [(o["op"], o["ts"], o["cs"])]
-        code = parseN(coq_eval(ctx, IMPORTS, ["check_surface_case %s %s %s %s" % (coq_calls(calls, oracles), cqN(wiring.NPROBE), cqvec(rp["probe"]), coq_res(r))])[0])
+        code = parseN(coq_eval(ctx, IMPORTS, ["check_surface_case %s %s %s %s" % (coq_calls(calls, oracles, rp.get("variant", 0) if rp["surface"] != "operate" else 0), cqN(wiring.NPROBE), cqvec(rp["probe"]), coq_res(r))])[0])
         print(json.dumps({"surface": rp.get("label", "operate"), "documented_calls": calls, "impl": r.get("e", "ok"), "verdict_bits": code}))
         if not (code & 2): return 1
     return 0
